@@ -218,7 +218,8 @@ def gen_case(rng, size=None):
         visit(i)
     case = {'adds': [adds[i] for i in seq]}
     names = [n for n in ORDER if chosen.get(n, 0)]
-    case['collate'] = sorted(n for n in names if rng.random() < 0.25)
+    pc = rng.choice([0.0, 0.0, 0.15, 0.5])
+    case['collate'] = sorted(n for n in names if rng.random() < pc)
     # Output rows
     outs = []
     for _ in range(rng.choice([0, 0, 1, 2, 4])):
